@@ -9,6 +9,7 @@ pub mod c10;
 pub mod c11;
 pub mod c12;
 pub mod c13;
+pub mod c14;
 pub mod c16;
 pub mod c17;
 pub mod daemon;
@@ -119,6 +120,7 @@ pub fn all() -> Vec<PropDef> {
     v.push(c11::def());
     v.push(c12::def());
     v.push(c13::def());
+    v.push(c14::def());
     v.push(c16::def());
     v.push(c17::def());
     v.push(fe::def_c02());
